@@ -1287,6 +1287,36 @@ def _rand_tiny(rng):
             return [int(rng.integers(1, len(EPS) + 1)), dy, dx]
 
 
+def _rand_project_2d(rng, canonical=None):
+    """project_grid on a 2D grid with a decimal pixel scale (0.1, 0.2, 0.05, 0.3, ...: not exact in binary) on frames up to
+    15 x 15, centres on and off the grid's own centre; the count of projected points is judged exactly."""
+    tau, sc = [(0.05, 2), (0.05, 4), (0.025, 2), (0.05, 6), (0.1, 2), (0.1, 4), (1.0 / 3.0, 2), (0.35, 2), (0.25, 2)][int(rng.integers(0, 9))]
+    h, w = int(rng.integers(1, 16)), int(rng.integers(1, 16))
+    if canonical is not None:
+        h, w, tau, sc = canonical
+    m = rng.random((h, w)) < rng.choice([0.5, 1.0, 1.0])
+    if not m.any():
+        m[:, :] = True
+    u = [int(x) for x in np.flatnonzero(m.ravel())]
+    oy, ox = (0, 0) if (rng.random() < 0.5 or canonical) else (int(rng.integers(-6, 7)), int(rng.integers(-6, 7)))
+    on_centre = rng.random() < 0.5 or canonical
+    cy, cx = (oy, ox) if on_centre else (oy + int(rng.integers(-2 * sc, 2 * sc + 1)), ox + int(rng.integers(-2 * sc, 2 * sc + 1)))
+    return h, w, u, [sc, cy, cx, 0], {"tau": tau, "oy": oy, "ox": ox, "cy": cy, "cx": cx}
+
+
+def decimal_project_instances(rng, count):
+    """More of the same, among them the plain uniform grids 10x10 at 0.1, 5x5 at 0.2, 12x12 at 0.05, 6x6 at 0.3, 15x15 at 0.1."""
+    out = []
+    canon = [(10, 10, 0.05, 2), (5, 5, 0.05, 4), (12, 12, 0.025, 2), (6, 6, 0.05, 6), (15, 15, 0.1, 1 * 2), (7, 9, 0.1, 2), (10, 10, 0.1, 4)]
+    for k in range(count):
+        h, w, u, par, extra = _rand_project_2d(rng, canon[k] if k < len(canon) else None)
+        cs = CLASSES_OF["g2d"]
+        out.append(dict({"api": "project", "gk": "g2d", "rk": "values", "lst": False, "h": h, "w": w, "u": u, "par": par, "depth": 0,
+                         "flag": False, "angle": _angle_pool(rng), "cls": cs[int(rng.integers(0, len(cs)))] if rng.random() < 0.3 else "base"},
+                        **extra))
+    return out
+
+
 def random_instances(rng, count, max_side=7):
     """Larger instances beyond the exhaustive bound: masks up to max_side^2, irregular sets up to 14 points, 1D grids up to 12
     pixels, finer lattices (tau = 1/8, 1/16) around the radial minimum, points exactly on the minimum circle."""
@@ -1308,19 +1338,7 @@ def random_instances(rng, count, max_side=7):
             rk = "values"
             extra = {}
             if gk == "g2d":
-                # decimal pixel scales (0.1, 0.2, 0.05, 0.3, ...: not exact in binary) on frames up to 15 x 15, centres on and off
-                # the grid's own centre; the count of projected points is judged exactly
-                tau, sc = [(0.05, 2), (0.05, 4), (0.025, 2), (0.05, 6), (0.1, 2), (0.1, 4), (1.0 / 3.0, 2), (0.35, 2), (0.25, 2)][int(rng.integers(0, 9))]
-                h, w = int(rng.integers(1, 16)), int(rng.integers(1, 16))
-                m = rng.random((h, w)) < rng.choice([0.5, 1.0, 1.0])
-                if not m.any():
-                    m[:, :] = True
-                u = [int(x) for x in np.flatnonzero(m.ravel())]
-                oy, ox = (0, 0) if rng.random() < 0.5 else (int(rng.integers(-6, 7)), int(rng.integers(-6, 7)))
-                on_centre = rng.random() < 0.5
-                cy, cx = (oy, ox) if on_centre else (oy + int(rng.integers(-2 * sc, 2 * sc + 1)), ox + int(rng.integers(-2 * sc, 2 * sc + 1)))
-                par = [sc, cy, cx, 0]
-                extra = {"tau": tau, "oy": oy, "ox": ox, "cy": cy, "cx": cx}
+                h, w, u, par, extra = _rand_project_2d(rng)
             else:
                 h, w, par = 1, int(rng.integers(2, 13)), [0, 0, 0, 0]
                 u = list(range(w)) if gk == "irr" else sorted(int(x) for x in rng.choice(w, size=int(rng.integers(1, w + 1)), replace=False))
@@ -1499,7 +1517,7 @@ def run(ctx):
     insts = enumerate_instances(ctx, b)
     ctx.exhaustive = True
     rng = np.random.default_rng(ctx.seed)
-    rnd = random_instances(rng, nrand, ctx.bounds["random_max_side"])
+    rnd = random_instances(rng, nrand, ctx.bounds["random_max_side"]) + decimal_project_instances(rng, 80 if quick else 2000)
     allinst = [complete(i, ctx.seed) for i in insts] + [complete(i, ctx.seed + 1) for i in rnd]
     groups = [allinst[k: k + 60] for k in range(0, len(allinst), 60)]
     recs = []
